@@ -134,3 +134,58 @@ Theorem C07_code_protected_iter_is_rfc_rule : forall ks,
   = map kind_code (keep_admitted (allow {| s_mi := false; s_sha := false; s_fp := false |} ks) ks).
 Proof. exact CodeAgreeIter.code_protected_iter_is_rfc_rule. Qed.
 Print Assumptions C07_code_protected_iter_is_rfc_rule.
+
+(* ---- the IF direction on the model side (the specification clause Agent/Monitors.v: mon_C07_reject judges the
+   implementation; AgentReject.mon_C07_reject_premise: that clause is `if bad_st_response .. then <required outcome> else
+   true`): a success / error response for an outstanding request, with the valid FINGERPRINT a fingerprint-checking client
+   insists on, whose protected attributes do not carry both integrity kinds and whose integrity attribute of the kind in
+   force (the agreed one; MESSAGE-INTEGRITY, else MESSAGE-INTEGRITY-SHA256, while none is agreed) is absent or keyed with
+   anything but the configured password, fails the request with ProtectionViolated in this very step on reliable
+   transport; on unreliable transport it is discarded without an event, the request is marked and keeps running *)
+From Rustun Require Import Proofs.AgentReject.
+Theorem C07_bad_response_is_rejected : forall (c:Model.client) (s:Model.st_mech) (now:N) (w:Model.msg),
+  Model.mech_ c = Model.MST s ->
+  AgentReject.bad_st_response (Model.use_fp (Model.cfg c)) (Model.st_agreed s)
+                  (match Model.lookup (Model.m_id w) (Model.T c) with Some _ => true | None => false end) w = true ->
+  let '(c', rep, evs) := Model.step c (Model.Recv now true w) in
+  if Model.reliable (Model.cfg c)
+  then rep = Model.ROk None /\ evs = [Model.Failed (Model.m_id w) Model.ProtectionViolated]
+       /\ Model.lookup (Model.m_id w) (Model.T c') = None
+       /\ Model.mech_ c' = Model.mech_ c /\ Model.markers c' = Model.markers c
+  else rep = Model.RDiscarded /\ evs = [] /\ Model.mem (Model.m_id w) (Model.markers c') = true
+       /\ Model.T c' = Model.T c /\ Model.H c' = Model.H c /\ Model.mech_ c' = Model.mech_ c.
+Proof. exact AgentReject.bad_st_response_is_rejected. Qed.
+Print Assumptions C07_bad_response_is_rejected.
+
+(* ---- the same IF direction at trace level: the monitor mon_C07_reject, in exactly the form ocaml/driver.ml runs it on the
+   implementation (on the schedule and short-term monitor states BEFORE the call, as monitor_step has threaded them through
+   the prefix), accepts every step of the model in every well-formed history, for every configuration, transport and
+   mechanism (Proofs/AgentMeets5.v) *)
+From Rustun Require Import Proofs.AgentMeets Proofs.AgentMeets2 Proofs.AgentMeets3 Proofs.AgentMeets5.
+Theorem C07_model_meets_reject_monitor :
+  forall (cf:Model.config) (m:Model.mech) (mc:Monitors.mcfg) (cc:Monitors.ccfg) (ops:list Model.op),
+  AgentMeets.consistent mc cf -> AgentMeets2.consistent_cc cc cf m -> AgentMeets.well_formed_history ops ->
+  forall (a:list Model.op) (o:Model.op) (b:list Model.op), ops = a ++ o :: b ->
+    let c := fst (AgentMeets3.run_state mc cc (Model.init cf m) (Monitors.mall0 cc) a) in
+    let s := snd (AgentMeets3.run_state mc cc (Model.init cf m) (Monitors.mall0 cc) a) in
+    let '(c', rep, evs) := Model.step c o in
+    Monitors.mon_C07_reject cc (Monitors.ma_core s) (Monitors.ma_st s) (AgentMeets.mop_of o rep) (AgentMeets.obs_of c c' o rep evs) = true.
+Proof. exact AgentMeets5.model_meets_C07_reject. Qed.
+Print Assumptions C07_model_meets_reject_monitor.
+(* and, read the other way: wherever the monitor's premise holds, the model's step yields exactly the rejection *)
+Theorem C07_model_rejects_when_monitor_demands :
+  forall (cf:Model.config) (m:Model.mech) (mc:Monitors.mcfg) (cc:Monitors.ccfg) (a:list Model.op) (now:N) (w:Model.msg) (b:list Model.op),
+  AgentMeets.consistent mc cf -> AgentMeets2.consistent_cc cc cf m -> AgentMeets.well_formed_history (a ++ Model.Recv now true w :: b) ->
+  let c := fst (AgentMeets3.run_state mc cc (Model.init cf m) (Monitors.mall0 cc) a) in
+  let s := snd (AgentMeets3.run_state mc cc (Model.init cf m) (Monitors.mall0 cc) a) in
+  (1 <= Monitors.cc_mech cc <= 3)%N ->
+  AgentReject.bad_st_response (Monitors.cc_fp cc) (Monitors.sm_agreed (Monitors.ma_st s))
+                  (Monitors.memN (Model.m_id w) (Monitors.live (Monitors.ma_core s))) w = true ->
+  let '(c', rep, evs) := Model.step c (Model.Recv now true w) in
+  if Monitors.cc_reliable cc
+  then rep = Model.ROk None /\ evs = [Model.Failed (Model.m_id w) Model.ProtectionViolated]
+       /\ Model.lookup (Model.m_id w) (Model.T c') = None /\ Model.markers c' = Model.markers c
+  else rep = Model.RDiscarded /\ evs = [] /\ Model.mem (Model.m_id w) (Model.markers c') = true
+       /\ Model.T c' = Model.T c /\ Model.H c' = Model.H c.
+Proof. exact AgentMeets5.model_rejects_when_monitor_demands. Qed.
+Print Assumptions C07_model_rejects_when_monitor_demands.
